@@ -222,6 +222,35 @@ func c15TaglessFragments(c *Ctx) {
 					got = append(got, pl)
 				}
 			}
+			// the same in an established session, where the version is fixed and the reassembled message is a data message
+			func() {
+				pols := []int{polV3, polV3}
+				s := newSys(pols, c.R.U64())
+				if !s.Handshake(1, 2) {
+					return
+				}
+				a, b := s.ps[1].c, s.ps[2].c
+				a.SetFragmentSize(120)
+				text := []byte("in pieces, please")
+				msgs, err := a.Send(text)
+				if err != nil || len(msgs) < 3 {
+					return
+				}
+				var plains [][]byte
+				for i, m := range msgs {
+					if i == at {
+						if pl, _, _ := b.Receive([]byte(intr)); pl != nil {
+							plains = append(plains, pl)
+						}
+					}
+					if pl, _, _ := b.Receive(m); pl != nil {
+						plains = append(plains, pl)
+					}
+				}
+				if len(plains) != 1 || !bytes.Equal(plains[0], text) {
+					c.Violate("foreign-instance-message-processed", "tagless-fragment,established", fmt.Sprintf("a version 2 format fragment %q shown to an established version 3 conversation after piece %d of %d changed what was delivered: %q", intr, at, len(msgs), plains), nil)
+				}
+			}()
 			c.Count("c15:tagless-fragment")
 			c.Rep.Evaluations++
 			if len(got) != 1 || !bytes.Equal(got[0], data) {
